@@ -106,4 +106,47 @@ Section Items.
     intros Hiw Hg. gi_open Hg. ws_open Hgst. unfold item_margin_sums, g_core. destruct Wmar as (Hml & Hmr & Hmt & Hmb).
     unfold_lifts. hm k Hk.
   Qed.
+  (* ---- 2. GridItem::known_dimensions: the style's size / min_size / max_size enter only through `item_resolved` *)
+  Definition ikd_rest (g : @GItem XQ) (inner area inherent mn mx : Size (option XQ)) : Size (option XQ) :=
+    let c := g_core g in
+    let margins := item_margin_sums (width inner) g in
+    let ar := aspect_ratio c in
+    let area_minus := size_maybe_sub_of area margins in
+    let w := opt_or (width inherent)
+                    (if negb (lpa_is_auto (r_left (margin c))) && negb (lpa_is_auto (r_right (margin c))) && ai_is_stretch (g_justify g)
+                     then width area_minus else None) in
+    let s1 := maybe_apply_aspect_ratio (mkSize w (height inherent)) ar in
+    let h := opt_or (height s1)
+                    (if negb (lpa_is_auto (r_top (margin c))) && negb (lpa_is_auto (r_bottom (margin c))) && ai_is_stretch (g_align g)
+                     then height area_minus else None) in
+    let s2 := maybe_apply_aspect_ratio (mkSize (width s1) h) ar in
+    size_maybe_clamp_oo s2 mn mx.
+  Lemma item_known_dimensions_unfold inner area (g : @GItem XQ) :
+    item_known_dimensions inner area g =
+    ikd_rest g inner area (fst (fst (item_resolved (g_core g) area))) (snd (fst (item_resolved (g_core g) area)))
+             (snd (item_resolved (g_core g) area)).
+  Proof. reflexivity. Qed.
+
+  Lemma rel_item_resolved g g' ctx ctx' : gitem_rel k g g' -> sz_rel O ctx ctx' ->
+    triple_rel k (item_resolved (g_core g) ctx) (item_resolved (g_core g') ctx').
+  Proof. intros Hg Hc. gi_open Hg. ws_open Hgst. apply Wres. exact Hc. Qed.
+
+  Lemma rel_item_known_dimensions inner inner' area area' g g' :
+    sz_rel O inner inner' -> sz_rel O area area' -> gitem_rel k g g' ->
+    sz_rel O (item_known_dimensions inner area g) (item_known_dimensions inner' area' g').
+  Proof.
+    intros Hin Har Hg. rewrite !item_known_dimensions_unfold.
+    pose proof (rel_item_resolved g g' area area' Hg Har) as (Hinh & Hmn & Hmx).
+    revert Hinh Hmn Hmx.
+    generalize (fst (fst (item_resolved (g_core g) area))) (snd (fst (item_resolved (g_core g) area))) (snd (item_resolved (g_core g) area)).
+    generalize (fst (fst (item_resolved (g_core g') area'))) (snd (fst (item_resolved (g_core g') area'))) (snd (item_resolved (g_core g') area')).
+    intros inh' mn' mx' inh mn mx Hinh Hmn Hmx.
+    pose proof (rel_item_margin_sums (width inner) (width inner') g g' (proj1 Hin) Hg) as Hms.
+    gi_open Hg. ws_open Hgst. unfold ikd_rest, g_core. destruct Wmar as (Hml & Hmr & Hmt & Hmb).
+    rewrite (rel_lpa_is_auto _ _ Hml), (rel_lpa_is_auto _ _ Hmr), (rel_lpa_is_auto _ _ Hmt), (rel_lpa_is_auto _ _ Hmb), Egj, Ega.
+    revert Hms. generalize (item_margin_sums (width inner) g) (item_margin_sums (width inner') g'). intros ms ms' Hms.
+    clear - Hk Hin Har Hinh Hmn Hmx Hms War.
+    destruct (negb (lpa_is_auto (r_left _)) && _ && ai_is_stretch (g_justify g)), (negb (lpa_is_auto (r_top _)) && _ && ai_is_stretch (g_align g));
+      unfold_lifts; hm k Hk.
+  Qed.
 End Items.
